@@ -788,6 +788,90 @@ def e2e_exclude(chk, ctx):
     shutil.rmtree(im.p / "lib", ignore_errors=True)
 
 
+def e2e_full_runs(chk, ctx, nproj):
+    """the same option set (outside the recorded --config region) in the three formats, through a
+    complete FORD run on a generated project: the generated sites must be identical"""
+    import hashlib
+    import ford
+    from harness.gen import program as G
+    from harness.impl import fordrun as F
+    rng, im = chk.rng, ctx.impl
+    for j in range(nproj):
+        proj = G.gen_project(rng, {"nfiles": rng.choice([1, 2])})
+        files = G.render_project(proj)
+        for rel, text in files.items():
+            (im.p / rel).parent.mkdir(parents=True, exist_ok=True)
+            (im.p / rel).write_text(text)
+        opts = [("project", ("str", ["Demo " + str(j)])), ("summary", ("str", ["first line", "second |a| line"])),
+                ("author", ("str", ["A. Uthor"])), ("max_frontpage_items", ("int", rng.choice([1, 3]))),
+                ("graph", ("bool", False)), ("search", ("bool", False)), ("preprocess", ("bool", False)),
+                ("src_dir", ("list", ["./src"])), ("sort", ("str", [rng.choice(["src", "alpha", "permission"])])),
+                ("hide_undoc", ("bool", rng.random() < 0.5)), ("proc_internals", ("bool", rng.random() < 0.5)),
+                ("incl_src", ("bool", rng.random() < 0.5)), ("alias", ("dict", [("a", "bee")])),
+                ("display", ("list", ["public", "private"])), ("version", ("str", ["1.2"]))]
+        rng.shuffle(opts)
+        body = ["", "Project documentation with an alias |a|."]
+        lines = []
+        for k, a in opts:
+            lines += md_lines(k, a, ctx.seps)
+        native = [(k, aval_py(a)) for k, a in opts]
+        runs = {"markdown": (file_text(lines + body), None, None),
+                "fpm.toml": (file_text(body[1:]), fpm_toml(native), None),
+                "--config": (file_text(body[1:]), None, config_string(native))}
+        trees = {}
+        # one working directory per project: pages such as lists/modules.html print a source-file cell
+        # through relurl that depends on the working directory (not a configuration matter; reported
+        # to the C09/C12 builders), so the three formats are compared from the same place
+        variant = rng.choice([0, 1])
+        for fmt, (md, toml, cfg) in runs.items():
+            (im.p / "proj.md").write_text(md)
+            fpm = im.p / "fpm.toml"
+            if toml is None:
+                if fpm.exists():
+                    fpm.unlink()
+            else:
+                fpm.write_text(toml)
+            cwd, pf, _ = im.where(variant)
+            saved = (os.getcwd(), sys.argv, ford.datetime, ford.subprocess)
+            F.reset_globals()
+            try:
+                os.chdir(cwd)
+                sys.argv = ["ford", pf] + ([f"--config={cfg}"] if cfg is not None else [])
+                ford.datetime, ford.subprocess = FakeTime, FakeSubprocess
+                with F.quiet():
+                    try:
+                        data, docs = ford.initialize()
+                        ford.main(data, docs)
+                        out = im.p / "doc"
+                        trees[fmt] = {str(f.relative_to(out)): hashlib.sha1(f.read_bytes()).hexdigest()
+                                      for f in sorted(out.rglob("*")) if f.is_file()}
+                    except BaseException as e:  # noqa
+                        trees[fmt] = "EXC:" + type(e).__name__ + ":" + str(e)[:200]
+            finally:
+                os.chdir(saved[0])
+                sys.argv, ford.datetime, ford.subprocess = saved[1:]
+                shutil.rmtree(im.p / "doc", ignore_errors=True)
+        fpm = im.p / "fpm.toml"
+        if fpm.exists():
+            fpm.unlink()
+        shutil.rmtree(im.p / "src", ignore_errors=True)
+        ref = trees["markdown"]
+        same = all(trees[f] == ref for f in trees)
+        chk.count(("e2e-full", j, json.dumps([[k, list(a)] for k, a in opts])), nontrivial=isinstance(ref, dict) and len(ref) > 3,
+                  sample={"e2e_full_run": j, "files_written": len(ref) if isinstance(ref, dict) else ref, "formats_identical": same})
+        if isinstance(ref, str) or not same:
+            diff = {}
+            if isinstance(ref, dict):
+                for f, tr in trees.items():
+                    if isinstance(tr, dict):
+                        diff[f] = sorted(k for k in set(tr) | set(ref) if tr.get(k) != ref.get(k))[:10]
+                    else:
+                        diff[f] = tr
+            chk.violation("failing-input", {"what": "a complete FORD run gives different sites for the same options in "
+                                            "different formats (or fails)", "options": [[k, list(a)] for k, a in opts],
+                                            "differences": diff or ref, "files": files}, True)
+
+
 # ------------------------------------------------------------------ verdicts
 def judge_all(chk, ctx):
     base_term = (f"(base_input {coq_str(str(ctx.impl.p))} {coq_str('')} {coq_str(ctx.impl.ford_dir)}, "
@@ -890,6 +974,7 @@ def run(chk):
         count_cases(chk, ctx)
         judge_all(chk, ctx)
         e2e_exclude(chk, ctx)
+        e2e_full_runs(chk, ctx, 2 if chk.tier == "quick" else 12)
         witnesses(chk, ctx)
     finally:
         ctx.impl.close()
